@@ -12,12 +12,12 @@ import (
 
 func init() {
 	register(&Property{
-		ID:        "C17",
-		Title:     "Authentication capability negotiation follows the configured requirements",
-		DesignRef: "DESIGN.md §3 C17",
-		Technique: "predicate abstraction of matchAuth (atoms caps==0, cl==0, caps&cl==0) evaluated by conditional constant propagation over go/ssa on every consistent valuation x 4 server settings; SSA value origin for the echoed fields; typestate model for the refusal path",
-		LevelText: "Static: matchAuth's accept/refuse decision and returned capability word are compared with the specification (accept iff both sides empty or a shared bit; advertise exactly SC|PAA as enabled) on every consistent valuation of the three atoms for all four server settings — which partitions all 4 x 65536 concrete cases, since every branch condition of the function is one of the atoms or constant under the server setting (anything else makes the rule undecided). The success response is built from the version bytes and client bits decoded from the same packet and matchAuth's result; mismatch is answered with E_PROXY_CAPABILITYMISMATCH (0x800759E9) and ends the tunnel.",
-		LevelNote: "Trusted: go/ssa construction, encoding/binary reading little-endian fields in call order. Nothing about this property is left to run time except the library decoders.",
+		ID:          "C17",
+		Title:       "Authentication capability negotiation follows the configured requirements",
+		DesignRef:   "DESIGN.md §3 C17",
+		Technique:   "predicate abstraction of matchAuth (atoms caps==0, cl==0, caps&cl==0) evaluated by conditional constant propagation over go/ssa on every consistent valuation x 4 server settings; SSA value origin for the echoed fields; typestate model for the refusal path",
+		LevelText:   "Static: matchAuth's accept/refuse decision and returned capability word are compared with the specification (accept iff both sides empty or a shared bit; advertise exactly SC|PAA as enabled) on every consistent valuation of the three atoms for all four server settings — which partitions all 4 x 65536 concrete cases, since every branch condition of the function is one of the atoms or constant under the server setting (anything else makes the rule undecided). The success response is built from the version bytes and client bits decoded from the same packet and matchAuth's result; mismatch is answered with E_PROXY_CAPABILITYMISMATCH (0x800759E9) and ends the tunnel.",
+		LevelNote:   "Trusted: go/ssa construction, encoding/binary reading little-endian fields in call order. Nothing about this property is left to run time except the library decoders.",
 		Explanation: "C17/decision enumerates (SmartCardAuth, TokenAuth) x consistent (caps&cl==0, cl==0) valuations; under each, conditional constant propagation follows the unique feasible path of matchAuth and reads the returned (caps, err==nil). C17/caps-bits checks the constants. C17/echo follows the success response's arguments. C17/request-layout checks the order, widths and destinations of the binary.Read calls in handshakeRequest.",
 		Assumptions: []string{"uint16 comparisons with 0 are the only way the function inspects its operands (checked: unrecognised conditions are undecided)"},
 		Rules: []RuleDef{
